@@ -106,11 +106,25 @@ def _r1(w: World, rep: Report, storage: str):
                     # value must be loaded from the same storage (a permutation)
                     asg = gp
                     val = asg.value if isinstance(asg, ast.Assign) else None
+                    if isinstance(gp, (ast.Tuple, ast.List)):
+                        # `a[i], a[j] = x, y`: the value stored in this slot is the element at the same position
+                        asg = cfg.parent.get(id(gp))
+                        val = None
+                        if isinstance(asg, ast.Assign):
+                            pos = [i for i, t in enumerate(gp.elts) if t is par]
+                            if isinstance(asg.value, (ast.Tuple, ast.List)) and len(asg.value.elts) == len(gp.elts) and pos:
+                                val = asg.value.elts[pos[0]]
+                            else:
+                                val = asg.value
                     ok = False
                     if val is not None:
                         k = w.kinds(fi).of(val, n)
-                        ok = all(l.tag == 'index' and l.src.tag == 'attr' and l.src.attr == storage
-                                 for l in k.leaves())
+                        lv = []
+                        for l in k.leaves():
+                            l2 = _resolve_unpack(l)
+                            lv += list(l2.leaves()) if l2 is not l else [l]
+                        ok = bool(lv) and all(l.tag == 'index' and l.src.tag == 'attr' and l.src.attr == storage
+                                              for l in lv)
                     why = '' if ok else 'stack slot overwritten with a value that does not come from the stack'
                 elif isinstance(par, ast.Subscript) and isinstance(par.ctx, ast.Del):
                     kind = 'index-del'
